@@ -188,12 +188,65 @@ static void puthex(const unsigned char *p, size_t n)
     for (size_t i = 0; i < n; ++i) { putchar(d[p[i] >> 4]); putchar(d[p[i] & 15]); }
 }
 
-/* dirty the stack below the current frame so that uninitialised locals of the library see `junk` */
+/* dirty the stack below the current frame so that uninitialised locals of the library see `junk`.
+   Every library call of this driver goes through a macro of the function's own name that dirties the
+   stack immediately before the call (the driver's own parsing between operations would otherwise leave
+   whatever it happened to write there). */
 static void __attribute__((noinline)) dirty_stack(void)
 {
-    volatile unsigned char a[4096];
+    volatile unsigned char a[8192];
     for (size_t i = 0; i < sizeof(a); ++i) a[i] = junk;
 }
+#define mantis_ctr_cleanup(...) (dirty_stack(), mantis_ctr_cleanup(__VA_ARGS__))
+#define mantis_ctr_encrypt(...) (dirty_stack(), mantis_ctr_encrypt(__VA_ARGS__))
+#define mantis_ctr_init(...) (dirty_stack(), mantis_ctr_init(__VA_ARGS__))
+#define mantis_ctr_set_counter(...) (dirty_stack(), mantis_ctr_set_counter(__VA_ARGS__))
+#define mantis_ctr_set_key(...) (dirty_stack(), mantis_ctr_set_key(__VA_ARGS__))
+#define mantis_ctr_set_tweak(...) (dirty_stack(), mantis_ctr_set_tweak(__VA_ARGS__))
+#define mantis_ecb_crypt(...) (dirty_stack(), mantis_ecb_crypt(__VA_ARGS__))
+#define mantis_ecb_crypt_tweaked(...) (dirty_stack(), mantis_ecb_crypt_tweaked(__VA_ARGS__))
+#define mantis_parallel_ecb_cleanup(...) (dirty_stack(), mantis_parallel_ecb_cleanup(__VA_ARGS__))
+#define mantis_parallel_ecb_crypt(...) (dirty_stack(), mantis_parallel_ecb_crypt(__VA_ARGS__))
+#define mantis_parallel_ecb_init(...) (dirty_stack(), mantis_parallel_ecb_init(__VA_ARGS__))
+#define mantis_parallel_ecb_set_key(...) (dirty_stack(), mantis_parallel_ecb_set_key(__VA_ARGS__))
+#define mantis_parallel_ecb_swap_modes(...) (dirty_stack(), mantis_parallel_ecb_swap_modes(__VA_ARGS__))
+#define mantis_set_key(...) (dirty_stack(), mantis_set_key(__VA_ARGS__))
+#define mantis_set_tweak(...) (dirty_stack(), mantis_set_tweak(__VA_ARGS__))
+#define mantis_swap_modes(...) (dirty_stack(), mantis_swap_modes(__VA_ARGS__))
+#define skinny128_ctr_cleanup(...) (dirty_stack(), skinny128_ctr_cleanup(__VA_ARGS__))
+#define skinny128_ctr_encrypt(...) (dirty_stack(), skinny128_ctr_encrypt(__VA_ARGS__))
+#define skinny128_ctr_init(...) (dirty_stack(), skinny128_ctr_init(__VA_ARGS__))
+#define skinny128_ctr_set_counter(...) (dirty_stack(), skinny128_ctr_set_counter(__VA_ARGS__))
+#define skinny128_ctr_set_key(...) (dirty_stack(), skinny128_ctr_set_key(__VA_ARGS__))
+#define skinny128_ctr_set_tweak(...) (dirty_stack(), skinny128_ctr_set_tweak(__VA_ARGS__))
+#define skinny128_ctr_set_tweaked_key(...) (dirty_stack(), skinny128_ctr_set_tweaked_key(__VA_ARGS__))
+#define skinny128_ecb_decrypt(...) (dirty_stack(), skinny128_ecb_decrypt(__VA_ARGS__))
+#define skinny128_ecb_encrypt(...) (dirty_stack(), skinny128_ecb_encrypt(__VA_ARGS__))
+#define skinny128_parallel_ecb_cleanup(...) (dirty_stack(), skinny128_parallel_ecb_cleanup(__VA_ARGS__))
+#define skinny128_parallel_ecb_decrypt(...) (dirty_stack(), skinny128_parallel_ecb_decrypt(__VA_ARGS__))
+#define skinny128_parallel_ecb_encrypt(...) (dirty_stack(), skinny128_parallel_ecb_encrypt(__VA_ARGS__))
+#define skinny128_parallel_ecb_init(...) (dirty_stack(), skinny128_parallel_ecb_init(__VA_ARGS__))
+#define skinny128_parallel_ecb_set_key(...) (dirty_stack(), skinny128_parallel_ecb_set_key(__VA_ARGS__))
+#define skinny128_set_key(...) (dirty_stack(), skinny128_set_key(__VA_ARGS__))
+#define skinny128_set_tweak(...) (dirty_stack(), skinny128_set_tweak(__VA_ARGS__))
+#define skinny128_set_tweaked_key(...) (dirty_stack(), skinny128_set_tweaked_key(__VA_ARGS__))
+#define skinny64_ctr_cleanup(...) (dirty_stack(), skinny64_ctr_cleanup(__VA_ARGS__))
+#define skinny64_ctr_encrypt(...) (dirty_stack(), skinny64_ctr_encrypt(__VA_ARGS__))
+#define skinny64_ctr_init(...) (dirty_stack(), skinny64_ctr_init(__VA_ARGS__))
+#define skinny64_ctr_set_counter(...) (dirty_stack(), skinny64_ctr_set_counter(__VA_ARGS__))
+#define skinny64_ctr_set_key(...) (dirty_stack(), skinny64_ctr_set_key(__VA_ARGS__))
+#define skinny64_ctr_set_tweak(...) (dirty_stack(), skinny64_ctr_set_tweak(__VA_ARGS__))
+#define skinny64_ctr_set_tweaked_key(...) (dirty_stack(), skinny64_ctr_set_tweaked_key(__VA_ARGS__))
+#define skinny64_ecb_decrypt(...) (dirty_stack(), skinny64_ecb_decrypt(__VA_ARGS__))
+#define skinny64_ecb_encrypt(...) (dirty_stack(), skinny64_ecb_encrypt(__VA_ARGS__))
+#define skinny64_parallel_ecb_cleanup(...) (dirty_stack(), skinny64_parallel_ecb_cleanup(__VA_ARGS__))
+#define skinny64_parallel_ecb_decrypt(...) (dirty_stack(), skinny64_parallel_ecb_decrypt(__VA_ARGS__))
+#define skinny64_parallel_ecb_encrypt(...) (dirty_stack(), skinny64_parallel_ecb_encrypt(__VA_ARGS__))
+#define skinny64_parallel_ecb_init(...) (dirty_stack(), skinny64_parallel_ecb_init(__VA_ARGS__))
+#define skinny64_parallel_ecb_set_key(...) (dirty_stack(), skinny64_parallel_ecb_set_key(__VA_ARGS__))
+#define skinny64_set_key(...) (dirty_stack(), skinny64_set_key(__VA_ARGS__))
+#define skinny64_set_tweak(...) (dirty_stack(), skinny64_set_tweak(__VA_ARGS__))
+#define skinny64_set_tweaked_key(...) (dirty_stack(), skinny64_set_tweaked_key(__VA_ARGS__))
 
 /* run `fn` in a forked child to see whether it crashes */
 typedef struct { int argc; char **argv; } Op;
